@@ -3,7 +3,29 @@
 use crate::au::*;
 use crate::util::Ctx;
 
+/// beyond the product of the statement: several matching credentials, so that "the credential shown is
+/// the one that signs" is exercised with a choice to get wrong
+fn several_matches(ctx: &mut Ctx) {
+    for kind in [Kind::RefFull, Kind::Map, Kind::RefForced] {
+        for n in [2usize, 3] {
+            for order in 0..n {
+                for (up, uv) in [(true, true), (true, false), (false, true)] {
+                    let ids: Vec<Vec<u8>> = (0..n).map(|j| vec![0xC4, j as u8, order as u8]).collect();
+                    let preload: Vec<_> = ids.iter().enumerate().map(|(j, id)| make_passkey(ctx, id.clone(), "example.com", Some(vec![j as u8]), Some(10 * j as u32), None)).collect();
+                    let w = World { kind, counter_on: true, id_len: 16, hm: Hm::None, preload };
+                    let mut allow = ids.clone(); allow.rotate_left(order);
+                    let mut g = simple_get(ctx, "example.com"); g.up = up; g.uv = uv;
+                    g.allow = if kind == Kind::Map || order > 0 { Some(allow) } else { None };
+                    run_case(ctx, "C04", &w, &[step(Op::Get(g))]);
+                    ctx.stat("c04.several_matches");
+                }
+            }
+        }
+    }
+}
+
 pub fn gen(ctx: &mut Ctx) {
+    several_matches(ctx);
     let answers: [Result<(bool, bool), u8>; 7] = [Ok((false, false)), Ok((true, false)), Ok((false, true)), Ok((true, true)), Err(0x27), Err(0x2F), Err(0x3B)];
     let verifs = [None, Some(false), Some(true)];
     let mut row = 0u32;
